@@ -234,7 +234,7 @@ class Tokenizer(object):
         the LISP rules.
         This is the method doing the heavy-lifting of tokenization.
         """
-        spaces = {" ", "\n", "\t"}
+        spaces = {" ", "\n", "\t", "\r"}
         separators = {"(", ")", "|", "\""}
         specials = spaces | separators | {";", ""}
 
@@ -291,7 +291,8 @@ class Tokenizer(object):
                             c = next(reader)
 
                     elif c == ";":
-                        while c and c != "\n":
+                        # a comment ends with the line (LF or CR)
+                        while c and c != "\n" and c != "\r":
                             c = next(reader)
                         c = next(reader)
 
